@@ -22,7 +22,7 @@ LEVEL_NOTE = (
 )
 TECHNIQUE = "model-based property testing: generated histories, declarative staleness + needed-set oracle vs. observed operation multisets"
 RULE = (
-    "Hypothesis draws a registry world (as C03: incl. alias sources, sources with extra dependencies, late registration "
+    "(also: a file-backed family - the same histories and oracle over uberjob's bundled pickle/text/binary/JSON file stores in a scratch directory; worlds whose stores share one repr) Hypothesis draws a registry world (as C03: incl. alias sources, sources with extra dependencies, late registration "
     "order, literal barriers, side-reading calls) and a history (runs, faulted runs, source updates, deletions, fresh_time = clock-d "
     "incl. the boundary fresh_time == a store's time). For every fault-free run: expected = oracle(out-of-date set, needed "
     "set) computed from the spec and the stores' times; observed call / read / write multisets must equal it (which stores are asked for their modified time is not constrained); "
